@@ -1,23 +1,34 @@
 """C39 Virtual file system operations have set semantics.
 
 E2 (explicit-state history explorer) on the tree's real mjVFS, driven through the public C API:
-mj_defaultVFS / mj_addBufferVFS / mj_deleteFileVFS / mj_containsBufferVFS / mj_deleteVFS and
-mju_openResource + mju_readResource + mju_closeResource.
+mj_defaultVFS / mj_addBufferVFS / mj_addFileVFS / mj_deleteFileVFS / mj_containsBufferVFS / mj_containsFileVFS /
+mj_deleteVFS and mju_openResource + mju_readResource + mju_closeResource.
 
-Alphabet: 7 names (plain, upper-case variant, sub-directory with '/' and with '\\', "./" prefix,
-"d/.." detour, an unrelated name) x 3 contents ("", "x", "yy"); 42 operations (21 add, 7 delete,
-7 contains, 7 open+read+close).  Every history is replayed on a FRESH mjVFS; after every operation
-the whole observable state (contains + open/read of all 7 names, twice, so an observer that mutates
-is seen) is compared with a set/dict reference model.
+Alphabet.  Name strings: 7 buffer names (plain, upper-case variant, sub-directory with '/' and with '\\', "./" prefix,
+"d/.." detour, an unrelated name) + one mixed-case name that exists only on disk.  A "file" of the model is an ENTITY
+= (how it is added, name):
+  * 7 buffer entities  x 3 contents ("", "x", "yy")  added with mj_addBufferVFS(name, bytes);
+  * 4 disk entities added with mj_addFileVFS(dir, name) from a fixture directory created by the check: an
+    all-lower-case name, its UPPER-CASE twin (a different file on the case-sensitive fixture file system), a file in
+    a sub-directory, and a mixed-case name without a twin; each has its own distinct bytes.
+Operations: 21 add-buffer, 4 add-file, 8 delete, 8 contains-buffer, 4 contains-file, 8 open+read+close.  Every
+history is replayed on a FRESH mjVFS; after every operation the whole observable state (contains-buffer,
+contains-file and open/read of all 8 name strings, twice, so an observer that mutates is seen) is compared with a
+set/dict reference model.  A disk file that does not exist is added at depth 1 (documented result: -1, nothing added).
 
-Reference model = a dictionary  class(name) -> bytes  that demands only what the statement and the
-API reference promise.  Which *different* strings denote the same file is not documented, so the
-partition of the names into classes is LEARNED from the implementation's own answers (K(s) = set of
-names t with contains(t)==1 after add(s) on an empty VFS; s ~ s' iff K(s) == K(s')) and then
-required to be used consistently by add / delete / contains / read in every history.
+Reference model = a dictionary  class(entity) -> (bytes, how added)  that demands only what the statement and the
+API reference promise.  Which *different* entities denote the same file is not documented, so the partition of the
+entities into classes is LEARNED from the implementation's own answers (K(e) = set of lookups (contains-buffer(t),
+contains-file(t)) that report 1 after add(e) on an empty VFS; e ~ e' iff K(e) == K(e')) and then required to be used
+consistently by add / delete / contains / read in every history.  mj_deleteFileVFS(s) and open(s) take a bare
+string: s denotes the file reported by contains-buffer(s), and the file reported by contains-file(s) if that one was
+added from disk; deleting s must succeed and remove exactly one of them when one is present, and fail otherwise.
 """
 import ctypes
 import json
+import os
+import shutil
+import tempfile
 
 from .. import core, mj
 
@@ -27,38 +38,58 @@ META = dict(
     technique="explicit-state exploration of ALL operation histories of the real mjVFS up to a depth bound (BFS, "
               "de-duplicated on the observable state; plus all mutator histories without de-duplication), dictionary "
               "reference model with aliasing learned from the implementation",
-    text="Every history of add-buffer / delete / contains / open+read+close over 7 names (case variant, both separators, "
-         "'./', 'd/..') x 3 contents up to depth 4 (thorough 5) is executed on a fresh mjVFS of the tree-built library and "
-         "compared, after every operation and for every name, with a set model: present iff added and not deleted since; "
-         "repeated add returns 2 and keeps the bytes; read of a present name returns exactly the bytes; delete of a present "
-         "name returns 0, of an absent name -1 and changes nothing; observers do not mutate.  Exhaustive within the bound; the "
-         "state space (each alias class absent or holding one of 3 contents) is closed at depth 4, so deeper histories only "
-         "revisit states.",
-    note="Trusted base: ctypes call wrappers. Aliasing between different strings is learned, not demanded; only "
-         "contains(s) after add(s) for the SAME string is demanded outright. Reading an ABSENT name is not constrained by the "
-         "statement (the implementation falls back to a case-insensitive base-name match and then to the disk); those reads "
-         "are counted, not judged. mj_addFileVFS / mounted providers / concurrent use are not covered (no disk files in the "
-         "alphabet).",
+    text="Every history of add-buffer / add-file-from-disk / delete / contains-buffer / contains-file / open+read+close over "
+         "8 name strings (case variant, both separators, './', 'd/..', mixed case), 7 buffer names x 3 contents and 4 disk "
+         "files (lower case, upper-case twin, sub-directory, mixed case) up to depth 4 (thorough 5) is executed on a fresh "
+         "mjVFS of the tree-built library and compared, after every operation and for every name, with a set model: present "
+         "iff added and not deleted since; repeated add returns 2 and keeps the bytes; read of a present name returns exactly "
+         "the bytes (of the buffer, or of the disk file); delete by the name a file was added under returns 0 and removes "
+         "exactly it, delete of an absent name returns -1 and changes nothing; observers do not mutate; adding a disk file "
+         "that does not exist returns -1.  Exhaustive within the bound; the state space (each alias class absent or holding one "
+         "of its possible contents) is closed at depth 4, so deeper histories only revisit states.",
+    note="Trusted base: ctypes call wrappers; a case-sensitive file system under the temporary fixture directory (verified "
+         "at start). Aliasing between different entities is learned, not demanded; only contains(e) after add(e) for the SAME "
+         "entity is demanded outright. Reading an ABSENT name is not constrained by the statement (the implementation falls "
+         "back to a case-insensitive base-name match and then to the disk); those reads are counted, not judged. One "
+         "directory spelling is used for mj_addFileVFS / mj_containsFileVFS; user-mounted providers / concurrent use are not "
+         "covered.",
     design_ref="DESIGN.md §3 C39")
 
-NAMES = [b"a.txt", b"A.TXT", b"d/a.txt", b"d\\a.txt", b"./a.txt", b"d/../a.txt", b"b.txt"]
-CONTENTS = [b"", b"x", b"yy"]
+# name strings (indices 0..6 are the buffer names and are stable: recorded replays refer to them)
+NAMES = [b"a.txt", b"A.TXT", b"d/a.txt", b"d\\a.txt", b"./a.txt", b"d/../a.txt", b"b.txt", b"B.txt"]
 NN = len(NAMES)
+BUF_NAMES = list(range(7))                       # name indices that are added as buffers
+CONTENTS = [b"", b"x", b"yy"]
+# disk files of the fixture directory: name index -> bytes on disk (distinct from each other and from CONTENTS)
+DISK = {0: b"disk-lower", 1: b"DISK-UPPER", 2: b"disk-sub", 7: b"Disk-Mixed"}
+DISK_NAMES = sorted(DISK)
+MISSING = b"nofile.txt"                          # never created on disk
 
 KEY_CONTAINS = "vfs: contains(name) false right after successful add(name) for names that path-reduce"
+KEY_CONTAINS_FILE = "vfs: containsFile(dir,name) false right after successful addFile(dir,name)"
 KEY_DELETE = "vfs: delete(name) of an absent name returns success and removes a different file with the same lower-cased base name"
+KEY_MISSING = "vfs: addFile of a file that does not exist on disk does not fail"
+KEY_READ_AMBIG = ("vfs: open+read of a present disk file returns the bytes of a present buffer whose own name aliases it as a "
+                  "file name")
 
-# operations: ("add", name index, content index) | ("del", n) | ("has", n) | ("read", n)
-OPS = ([("add", n, c) for n in range(NN) for c in range(len(CONTENTS))] + [("del", n) for n in range(NN)] +
-       [("has", n) for n in range(NN)] + [("read", n) for n in range(NN)])
-MUTATORS = [o for o in OPS if o[0] in ("add", "del")]
+# operations: ("add", name, content) | ("addf", name) | ("del", n) | ("has", n) | ("hasf", n) | ("read", n)
+OPS = ([("add", n, c) for n in BUF_NAMES for c in range(len(CONTENTS))] + [("addf", n) for n in DISK_NAMES] +
+       [("del", n) for n in range(NN)] + [("has", n) for n in range(NN)] + [("hasf", n) for n in DISK_NAMES] +
+       [("read", n) for n in range(NN)])
+MUTATORS = [o for o in OPS if o[0] in ("add", "addf", "del")]
+# entities that can be added, lookups that can be asked
+ENTITIES = [("b", n) for n in BUF_NAMES] + [("f", n) for n in DISK_NAMES]
+LOOKUPS = [("b", n) for n in range(NN)] + [("f", n) for n in range(NN)]
+OPNAME = {"add": "add", "addf": "add-file", "del": "delete", "has": "contains", "hasf": "contains-file",
+          "read": "open+read of a present name"}
 
 
 def op_str(op):
     nm = NAMES[op[1]].decode()
     if op[0] == "add":
         return "add(%r,%r)" % (nm, CONTENTS[op[2]].decode())
-    return "%s(%r)" % ({"del": "delete", "has": "contains", "read": "open+read"}[op[0]], nm)
+    return "%s(%r)" % ({"addf": "addFile", "del": "delete", "has": "contains", "hasf": "containsFile",
+                        "read": "open+read"}[op[0]], nm)
 
 
 def hist_str(h):
@@ -70,11 +101,29 @@ def _viol(part, key, what, replay=None):
         part.violation(key, what, replay)
 
 
+def make_fixture():
+    """Directory with the disk files; raises if the file system does not keep case twins apart."""
+    root = tempfile.mkdtemp(prefix="c39_disk_")
+    for n, data in DISK.items():
+        p = os.path.join(root, NAMES[n].decode())
+        os.makedirs(os.path.dirname(p), exist_ok=True)
+        with open(p, "wb") as f:
+            f.write(data)
+    for n, data in DISK.items():
+        with open(os.path.join(root, NAMES[n].decode()), "rb") as f:
+            if f.read() != data:
+                raise RuntimeError("C39 fixture: %s does not keep case twins apart" % root)
+    if os.path.exists(os.path.join(root, MISSING.decode())):
+        raise RuntimeError("C39 fixture: unexpected file")
+    return root.encode()
+
+
 class Vfs:
     """One fresh mjVFS of the tree library."""
 
-    def __init__(self, lib):
+    def __init__(self, lib, root=None):
         self.lib = lib
+        self.root = root if root is not None else _G.get("root")
         n = lib.c.vg_sizeof(b"mjVFS")
         self.buf = ctypes.create_string_buffer(max(int(n), 8))
         lib.mj_defaultVFS(self.buf)
@@ -86,11 +135,17 @@ class Vfs:
     def add(self, name, data):
         return self.lib.mj_addBufferVFS(self.buf, name, data, len(data))
 
+    def addf(self, name):
+        return self.lib.mj_addFileVFS(self.buf, self.root, name)
+
     def delete(self, name):
         return self.lib.mj_deleteFileVFS(self.buf, name)
 
     def has(self, name):
         return self.lib.mj_containsBufferVFS(self.buf, name)
+
+    def hasf(self, name):
+        return self.lib.mj_containsFileVFS(self.buf, self.root, name)
 
     def read(self, name):
         """open + read + close through the resource API; None if the resource cannot be opened, ('ERR', k) on read error."""
@@ -110,137 +165,240 @@ class Vfs:
         return out
 
     def observe(self):
-        return tuple((self.has(t), self.read(t)) for t in NAMES)
+        return tuple((self.has(t), self.hasf(t), self.read(t)) for t in NAMES)
 
     def apply(self, op):
-        if op[0] == "add":
+        k = op[0]
+        if k == "add":
             return self.add(NAMES[op[1]], CONTENTS[op[2]])
-        if op[0] == "del":
+        if k == "addf":
+            return self.addf(NAMES[op[1]])
+        if k == "del":
             return self.delete(NAMES[op[1]])
-        if op[0] == "has":
+        if k == "has":
             return self.has(NAMES[op[1]])
+        if k == "hasf":
+            return self.hasf(NAMES[op[1]])
         return self.read(NAMES[op[1]])
 
 
+def ent_str(e):
+    return ("buffer %r" if e[0] == "b" else "disk file %r") % NAMES[e[1]].decode()
+
+
 def learn_classes(lib, part):
-    """K(s) from depth-1 histories; returns (class index per name, set of irreflexive names)."""
-    K = []
+    """K(e) from depth-1 histories.
+
+    Returns (cls: entity -> class index, look: lookup -> frozenset of class indices it reports, set of irreflexive entities)."""
+    K = {}
     irreflexive = set()
-    for i, s in enumerate(NAMES):
+    for e in ENTITIES:
+        kind, i = e
+        s = NAMES[i]
+        op = ("add", i, 1) if kind == "b" else ("addf", i)
         v = Vfs(lib)
-        rc = v.add(s, b"x")
-        ks = frozenset(j for j, t in enumerate(NAMES) if v.has(t) == 1)
-        rc2 = v.add(s, b"yy")
+        rc = v.apply(op)
+        ks = frozenset([("b", j) for j, t in enumerate(NAMES) if v.has(t) == 1] +
+                       [("f", j) for j, t in enumerate(NAMES) if v.hasf(t) == 1])
+        rc2 = v.apply(("add", i, 2) if kind == "b" else op)
         v.close()
         part["traces"] += 1
         part["transitions"] += 1
         if rc != 0:
-            _viol(part, "vfs: add of a new name to an empty VFS fails", "mj_addBufferVFS(%r) on an empty VFS returned %d" % (s, rc),
-                           {"history": [op_str(("add", i, 1))]})
-        if i not in ks:
-            irreflexive.add(i)
-            _viol(part, KEY_CONTAINS,
-                           "fresh mjVFS: mj_addBufferVFS(vfs, %r, \"x\", 1) returned %d, then mj_containsBufferVFS(vfs, %r) returned 0 "
-                           "(expected 1); the names reported present are %r; a second mj_addBufferVFS of the same string returned %d"
-                           % (s.decode(), rc, s.decode(), [NAMES[j].decode() for j in sorted(ks)], rc2),
-                           {"history": [op_str(("add", i, 1)), op_str(("has", i))], "name": s.decode(), "ops": [["add", i, 1], ["has", i]]})
-        K.append(ks)
+            _viol(part, "vfs: add of a new name to an empty VFS fails", "%s on an empty VFS returned %d" % (op_str(op), rc),
+                  {"history": [op_str(op)], "ops": [list(op)]})
+        if e not in ks:
+            irreflexive.add(e)
+            probe = ("has", i) if kind == "b" else ("hasf", i)
+            _viol(part, KEY_CONTAINS if kind == "b" else KEY_CONTAINS_FILE,
+                  "fresh mjVFS: %s returned %d, then %s returned 0 (expected 1); the lookups reported present are %r; a "
+                  "second add of the same %s returned %d"
+                  % (op_str(op), rc, op_str(probe), sorted("%s(%s)" % ("contains" if k == "b" else "containsFile",
+                                                                       NAMES[j].decode()) for k, j in ks), ent_str(e), rc2),
+                  {"history": [op_str(op), op_str(probe)], "name": s.decode(), "ops": [list(op), list(probe)]})
+        K[e] = ks
     order = []
-    cls = []
-    for ks in K:
-        if ks not in order:
-            order.append(ks)
-        cls.append(order.index(ks))
-    return cls, irreflexive
+    cls = {}
+    for e in ENTITIES:
+        if K[e] not in order:
+            order.append(K[e])
+        cls[e] = order.index(K[e])
+    look = {}
+    for lk in LOOKUPS:
+        look[lk] = frozenset(cls[e] for e in ENTITIES if lk in K[e])
+
+    # a disk file that does not exist: documented "-1: failed to load", and nothing may become present
+    v = Vfs(lib)
+    rc = v.addf(MISSING)
+    seen = [nm for nm, val in (("containsFile", v.hasf(MISSING)), ("contains", v.has(MISSING))) if val]
+    data = v.read(MISSING)
+    obs = v.observe()
+    v.close()
+    part["traces"] += 1
+    part["transitions"] += 1
+    part.add("missing_disk_file_histories")
+    if rc != -1 or seen or data is not None or any(o[0] or o[1] for o in obs):
+        _viol(part, KEY_MISSING,
+              "fresh mjVFS: mj_addFileVFS(vfs, <fixture dir>, %r) for a file that does not exist returned %d (documented: -1 "
+              "failed to load); afterwards %s report the name present and open+read of it gives %r"
+              % (MISSING.decode(), rc, seen or "no lookups", data),
+              {"history": ["addFile(%r)" % MISSING.decode()], "missing": MISSING.decode()})
+    return cls, look, irreflexive
 
 
 class Judge:
-    """Dictionary reference model + comparison with the implementation."""
+    """Dictionary reference model + comparison with the implementation.
 
-    def __init__(self, cls, irreflexive):
+    Model state: dict class -> (bytes, how, name index) with how in "b" (added as buffer) / "f" (added from disk) and
+    the name string it was added under."""
+
+    def __init__(self, cls, look, irreflexive):
         self.cls = cls
+        self.look = look
         self.irr = irreflexive
 
-    def model_step(self, st, op):
-        """st: dict class -> bytes.  Returns (expected return value or None=unconstrained, new state)."""
-        c = self.cls[op[1]]
-        if op[0] == "add":
+    # ---- what a bare name string denotes
+    def targets(self, st, n):
+        """Classes present in st that the string NAMES[n] denotes: the file(s) contains-buffer(s) reports, and the file(s)
+        contains-file(s) reports provided they were added from disk.  Second value: classes only reached through the
+        contains-file aliasing of a file that was added as a BUFFER (legacy fallback region)."""
+        t = [c for c in sorted(self.look[("b", n)]) if c in st]
+        legacy = []
+        for c in sorted(self.look[("f", n)]):
+            if c in st and c not in t:
+                (t if st[c][1] == "f" else legacy).append(c)
+        return t, legacy
+
+    def shadowing_buffer(self, st, n, data):
+        """NAMES[n] denotes only file(s) added from disk (no buffer of that name is present) but `data` was read: the
+        present buffer (class, name) holding exactly `data` whose own name string, asked as a FILE name, is reported as
+        the file being read (contains-file aliasing), or None."""
+        if any(c in st for c in self.look[("b", n)]):
+            return None
+        t, _ = self.targets(st, n)
+        for c in sorted(st):
+            if c not in t and st[c][1] == "b" and st[c][0] == data and any(x in t for x in self.look[("f", st[c][2])]):
+                return c, NAMES[st[c][2]].decode()
+        return None
+
+    def expected_obs(self, st):
+        """Per name string: (contains-buffer, contains-file, set of acceptable bytes or None = unconstrained)."""
+        out = []
+        for n in range(NN):
+            hb = 1 if any(c in st for c in self.look[("b", n)]) else 0
+            hf = 1 if any(c in st for c in self.look[("f", n)]) else 0
+            t, _ = self.targets(st, n)
+            out.append((hb, hf, set(st[c][0] for c in t) if t else None))
+        return out
+
+    def presence_matches(self, st, obs):
+        return all(o[0] == e[0] and o[1] == e[1] for o, e in zip(obs, self.expected_obs(st)))
+
+    def model_step(self, st, op, obs):
+        """Returns (set of acceptable return values or None=unconstrained, new state, legacy classes).  obs (the
+        implementation's observation after op) only selects among several equally acceptable successors of a delete."""
+        kind = op[0]
+        if kind in ("add", "addf"):
+            e = ("b" if kind == "add" else "f", op[1])
+            c = self.cls[e]
             if c in st:
-                return 2, st
+                return {2}, st, []
             ns = dict(st)
-            ns[c] = CONTENTS[op[2]]
-            return 0, ns
-        if op[0] == "del":
-            if c in st:
+            ns[c] = (CONTENTS[op[2]], "b", op[1]) if kind == "add" else (DISK[op[1]], "f", op[1])
+            return {0}, ns, []
+        if kind == "del":
+            t, legacy = self.targets(st, op[1])
+            if not t:
+                return {-1}, st, legacy
+            succ = []
+            for c in t:
                 ns = dict(st)
                 del ns[c]
-                return 0, ns
-            return -1, st
-        if op[0] == "has":
-            return (1 if c in st else 0), st
-        return (st[c] if c in st else None), st     # read of an absent name: unconstrained
+                succ.append(ns)
+            for ns in succ:
+                if self.presence_matches(ns, obs):
+                    return {0}, ns, []
+            return {0}, succ[0], []
+        if kind == "has":
+            return {1 if any(c in st for c in self.look[("b", op[1])]) else 0}, st, []
+        if kind == "hasf":
+            return {1 if any(c in st for c in self.look[("f", op[1])]) else 0}, st, []
+        t, _ = self.targets(st, op[1])
+        return (set(st[c][0] for c in t) if t else None), st, []     # read of an absent name: unconstrained
 
     def judge(self, part, hist, op, ret, obs, obs2, st_before):
         """Compare one executed transition.  Returns (new model state, ok-to-expand)."""
-        exp, st = self.model_step(st_before, op)
+        exp, st, legacy = self.model_step(st_before, op, obs)
         h = hist + (op,)
         rep = {"history": [op_str(o) for o in h], "ops": [list(o) for o in h]}
         expand = True
         kind = op[0]
+        show = lambda x: x.decode() if isinstance(x, bytes) else x
         if kind == "read" and exp is None:
             part.add("reads_of_absent_names_unconstrained")
             if ret is not None:
                 part.add("reads_of_absent_names_resolved_by_fallback")
-        elif ret != exp:
-            if kind == "has" and ret == 0 and op[1] in self.irr:
-                _viol(part, KEY_CONTAINS, "history %s: contains returned 0 for a name whose add succeeded and which was not deleted"
-                               % hist_str(h), rep)
-            elif kind == "del" and exp == -1 and ret == 0:
-                gone = [NAMES[i].decode() for i in range(NN) if self.cls[i] in st_before and obs[i][0] == 0 and not
-                        (i in self.irr)]
+        elif ret not in exp:
+            exp1 = sorted(exp, key=repr)[0] if len(exp) == 1 else None
+            if kind in ("has", "hasf") and ret == 0 and (("b" if kind == "has" else "f"), op[1]) in self.irr:
+                _viol(part, KEY_CONTAINS if kind == "has" else KEY_CONTAINS_FILE,
+                      "history %s: contains returned 0 for a name whose add succeeded and which was not deleted" % hist_str(h), rep)
+            elif kind == "read" and self.shadowing_buffer(st, op[1], ret):
+                _viol(part, KEY_READ_AMBIG, "history %s: open+read(%r) returned %r, the bytes of buffer %r, instead of %r"
+                      % (hist_str(h), NAMES[op[1]].decode(), ret, self.shadowing_buffer(st, op[1], ret)[1], sorted(exp)), rep)
+                expand = False
+            elif kind == "del" and ret == 0 and legacy:
+                before = self.expected_obs(st_before)
+                gone = [NAMES[i].decode() for i in range(NN) if (before[i][0], before[i][1]) != (obs[i][0], obs[i][1])]
                 _viol(part, KEY_DELETE, "history %s: mj_deleteFileVFS of a name that is absent (never added or already deleted; "
-                               "contains==0, and adding it would succeed) returned 0 instead of -1 and removed %r"
-                               % (hist_str(h), gone), rep)
+                      "contains==0, and adding it as a buffer would succeed) returned 0 instead of -1 and changed the presence of "
+                      "%r, added as a buffer under another name" % (hist_str(h), gone), rep)
                 expand = False
             else:
-                _viol(part, "vfs: %s returns %r where the set model requires %r" % (
-                    {"add": "add", "del": "delete", "has": "contains", "read": "open+read of a present name"}[kind],
-                    ret if not isinstance(ret, bytes) else ret.decode(), exp if not isinstance(exp, bytes) else exp.decode()),
-                    "history %s: last operation returned %r, expected %r" % (hist_str(h), ret, exp), rep)
+                _viol(part, "vfs: %s returns %r where the set model requires %s" % (
+                    OPNAME[kind], show(ret), repr(show(exp1)) if len(exp) == 1 else "one of %r" % sorted(map(show, exp), key=repr)),
+                    "history %s: last operation returned %r, expected %r" % (hist_str(h), ret, sorted(exp, key=repr)), rep)
                 expand = False
         if obs != obs2:
             _viol(part, "vfs: observing (contains / open+read+close) changes the observable state",
-                           "history %s: two consecutive full observations differ: %r vs %r" % (hist_str(h), obs, obs2), rep)
+                  "history %s: two consecutive full observations differ: %r vs %r" % (hist_str(h), obs, obs2), rep)
         if expand:
-            # full observable state vs model, for every name
+            # full observable state vs model, for every name string
+            eo = self.expected_obs(st)
             for i in range(NN):
-                present = self.cls[i] in st
-                has, data = obs[i]
-                if has != (1 if present else 0):
-                    if present and has == 0 and i in self.irr:
-                        _viol(part, KEY_CONTAINS, "history %s: contains(%r) is 0 although the file is present" %
-                                       (hist_str(h), NAMES[i].decode()), rep)
+                for which, lk in ((0, "b"), (1, "f")):
+                    if obs[i][which] == eo[i][which]:
+                        continue
+                    fn = "contains" if lk == "b" else "containsFile"
+                    if eo[i][which] == 1 and (lk, i) in self.irr:
+                        _viol(part, KEY_CONTAINS if lk == "b" else KEY_CONTAINS_FILE,
+                              "history %s: %s(%r) is 0 although the file is present" % (hist_str(h), fn, NAMES[i].decode()), rep)
                     else:
-                        _viol(part, "vfs: presence of a name after %s differs from the set model" % kind,
-                                       "history %s: contains(%r) == %d, model says %s" % (hist_str(h), NAMES[i].decode(), has,
-                                                                                          "present" if present else "absent"), rep)
+                        _viol(part, "vfs: presence of a name after %s differs from the set model" % OPNAME[kind].split(" of ")[0],
+                              "history %s: %s(%r) == %d, model says %s" % (hist_str(h), fn, NAMES[i].decode(), obs[i][which],
+                                                                          "present" if eo[i][which] else "absent"), rep)
                         expand = False
-                if present and data != st[self.cls[i]]:
-                    _viol(part, "vfs: bytes read for a present name after %s differ from the bytes added" % kind,
-                                   "history %s: open+read(%r) gave %r, model has %r" % (hist_str(h), NAMES[i].decode(), data,
-                                                                                       st[self.cls[i]]), rep)
+                if eo[i][2] is not None and obs[i][2] not in eo[i][2] and self.shadowing_buffer(st, i, obs[i][2]):
+                    _viol(part, KEY_READ_AMBIG, "history %s: open+read(%r) gave %r, the bytes of buffer %r; the model has %r (the "
+                          "disk file present under that name)" % (hist_str(h), NAMES[i].decode(), obs[i][2],
+                                                                  self.shadowing_buffer(st, i, obs[i][2])[1], sorted(eo[i][2])), rep)
+                    expand = False
+                elif eo[i][2] is not None and obs[i][2] not in eo[i][2]:
+                    _viol(part, "vfs: bytes read for a present name after %s differ from the bytes added" % OPNAME[kind].split(" of ")[0],
+                          "history %s: open+read(%r) gave %r, model has %r" % (hist_str(h), NAMES[i].decode(), obs[i][2],
+                                                                             sorted(eo[i][2])), rep)
                     expand = False
         return st, expand
 
 
-def run_history(lib, hist):
+def run_history(lib, hist, twice=True):
     """Replay hist on a fresh VFS; returns (return value of last op, observation, second observation)."""
     v = Vfs(lib)
     ret = None
     for op in hist:
         ret = v.apply(op)
     obs = v.observe()
-    obs2 = v.observe()
+    obs2 = v.observe() if twice else obs
     v.close()
     return ret, obs, obs2
 
@@ -270,11 +428,15 @@ def _setup():
     return _G["lib"]
 
 
+def _freeze(st):
+    return tuple(sorted(st.items()))
+
+
 def _expand_chunk(chunk):
     """chunk: list of (history, model state items); executes history+op for every op."""
     lib = _setup()
     part = core.Part()
-    judge = Judge(_G["cls"], _G["irr"])
+    judge = Judge(_G["cls"], _G["look"], _G["irr"])
     children = []
     for hist, st_items in chunk:
         st = dict(st_items)
@@ -285,8 +447,12 @@ def _expand_chunk(chunk):
             part["evaluations"] += 1
             st2, ok = judge.judge(part, hist, op, ret, obs, obs2, st)
             part["outcomes"].add("%s:%r" % (op[0], ret if not isinstance(ret, bytes) else "bytes"))
+            if any(o[0] == "addf" for o in hist + (op,)):
+                part.add("histories_with_a_disk_file")
+                if op[0] == "del" and any(v[1] == "f" for v in st.values()):
+                    part.add("deletes_judged_with_a_disk_file_present")
             if ok:
-                children.append((obs, hist + (op,), tuple(sorted(st2.items()))))
+                children.append((obs, hist + (op,), _freeze(st2)))
     part["extra"]["_children"] = children
     return part
 
@@ -295,11 +461,12 @@ def _nodedup_chunk(chunk):
     """chunk: list of first operations; DFS over ALL mutator histories below each (no de-duplication)."""
     lib = _setup()
     part = core.Part()
-    judge = Judge(_G["cls"], _G["irr"])
+    judge = Judge(_G["cls"], _G["look"], _G["irr"])
     depth = _G["nd_depth"]
+
     def rec(hist, st):
         for op in MUTATORS:
-            ret, obs, obs2 = run_history(lib, hist + (op,))
+            ret, obs, obs2 = run_history(lib, hist + (op,), twice=False)
             part["traces"] += 1
             part["transitions"] += 1
             part["evaluations"] += 1
@@ -308,7 +475,7 @@ def _nodedup_chunk(chunk):
                 rec(hist + (op,), st2)
 
     for first in chunk:
-        ret, obs, obs2 = run_history(lib, (first,))
+        ret, obs, obs2 = run_history(lib, (first,), twice=False)
         st2, ok = judge.judge(part, (), first, ret, obs, obs2, {})
         part["traces"] += 1
         part["transitions"] += 1
@@ -319,16 +486,30 @@ def _nodedup_chunk(chunk):
     return part
 
 
+def _lookup_str(lk):
+    return "%s(%s)" % ("contains" if lk[0] == "b" else "containsFile", NAMES[lk[1]].decode())
+
+
 def run(ctx):
     lib = _setup()
     depth = ctx.q(4, 5)
     nd_depth = ctx.q(3, 4)
+    _G["root"] = make_fixture()
+    try:
+        _run(ctx, lib, depth, nd_depth)
+    finally:
+        shutil.rmtree(_G["root"].decode(), ignore_errors=True)
+
+
+def _run(ctx, lib, depth, nd_depth):
     p0 = core.Part()
-    cls, irr = learn_classes(lib, p0)
+    cls, look, irr = learn_classes(lib, p0)
     ctx.merge(p0)
-    _G["cls"], _G["irr"], _G["nd_depth"] = cls, irr, nd_depth
-    ctx.extra["alias_classes_learned"] = [[NAMES[i].decode() for i in range(NN) if cls[i] == c] for c in sorted(set(cls))]
-    ctx.extra["names_not_reported_present_after_own_add"] = [NAMES[i].decode() for i in sorted(irr)]
+    _G["cls"], _G["look"], _G["irr"], _G["nd_depth"] = cls, look, irr, nd_depth
+    ctx.extra["alias_classes_learned"] = [[ent_str(e) for e in ENTITIES if cls[e] == c] for c in sorted(set(cls.values()))]
+    ctx.extra["lookups_per_class"] = [sorted(_lookup_str(lk) for lk in LOOKUPS if c in look[lk]) for c in sorted(set(cls.values()))]
+    ctx.extra["names_not_reported_present_after_own_add"] = [ent_str(e) for e in sorted(irr)]
+    ctx.extra["operations"] = {k: sum(1 for o in OPS if o[0] == k) for k in ("add", "addf", "del", "has", "hasf", "read")}
 
     # ---- BFS over all histories, de-duplicated on the implementation's observable state
     _, obs0, _ = run_history(lib, ())
@@ -337,7 +518,9 @@ def run(ctx):
     per_depth = []
     for d in range(1, depth + 1):
         col = _Collect(ctx)
-        core.pmap(col, _expand_chunk, frontier, nchunks=min(len(frontier), core.NCPU * 2))
+        # a small frontier is expanded in this process: starting the worker pool costs more than the histories themselves
+        small = len(frontier) * len(OPS) <= 2500
+        core.pmap(col, _expand_chunk, frontier, nchunks=1 if small else min(len(frontier), core.NCPU * 2))
         got = col.children
         # deterministic representative: shortest history, then smallest operation indices
         got.sort(key=lambda c: [OPS.index(o) for o in c[1]])
@@ -353,26 +536,35 @@ def run(ctx):
     ctx.states += len(seen)
     ctx.extra["new_states_per_depth"] = per_depth
     ctx.extra["bfs_depth"] = depth
+    ctx.extra["states_holding_a_disk_file"] = sum(1 for h in seen.values() if any(o[0] == "addf" for o in h))
     for obs in seen:
-        if any(o[0] for o in obs):
+        if any(o[0] or o[1] for o in obs):
             ctx.nontrivial.add("state:" + repr(obs))
     for obs, hist in sorted(seen.items(), key=lambda kv: (-len(kv[1]), repr(kv[0])))[:3]:
         ctx.count(0, sample={"history": hist_str(hist),
-                             "observable_state (name: contains, bytes read)": "; ".join(
-                                 "%s: %d, %r" % (NAMES[i].decode(), o[0], o[1].decode() if isinstance(o[1], bytes) else o[1])
+                             "observable_state (name: contains, containsFile, bytes read)": "; ".join(
+                                 "%s: %d, %d, %r" % (NAMES[i].decode(), o[0], o[1], o[2].decode() if isinstance(o[2], bytes) else o[2])
                                  for i, o in enumerate(obs))})
 
     # ---- all mutator histories without de-duplication (hidden-state cross-check of the de-duplication)
     core.pmap(ctx, _nodedup_chunk, MUTATORS, nchunks=len(MUTATORS))
     ctx.extra["nodedup_depth"] = nd_depth
-    ctx.rule = ("BFS over all histories of %d operations (21 add, 7 delete, 7 contains, 7 open+read+close over names %s x contents "
-                "['', 'x', 'yy']) to depth %d on a fresh mjVFS per history, de-duplicated on the observable state (contains and "
-                "open+read of all 7 names); plus ALL %d^d mutator histories, d<=%d, without de-duplication. states = distinct "
-                "observable states; distinct_nontrivial = distinct observable states with >=1 name reported present; transitions = operations judged against the "
-                "dictionary model (each one is a history replayed on the real code)" %
-                (len(OPS), [n.decode() for n in NAMES], depth, len(MUTATORS), nd_depth))
-    ctx.assumptions = ["aliasing between different name strings is learned from the implementation (depth-1 histories) and only "
-                       "required to be consistent", "reads of absent names are unconstrained (counted)",
+    nops = ctx.extra["operations"]
+    ctx.rule = ("BFS over all histories of %d operations (%d add-buffer = 7 names x contents ['', 'x', 'yy']; %d add-file from a "
+                "fixture directory: disk files %s with distinct bytes; %d delete, %d contains-buffer, %d contains-file, %d "
+                "open+read+close over name strings %s) to depth %d on a fresh mjVFS per history, de-duplicated on the observable "
+                "state (contains-buffer, contains-file and open+read of all %d name strings); plus ALL %d^d mutator histories, "
+                "d<=%d, without de-duplication; plus the depth-1 history that adds a disk file that does not exist. states = "
+                "distinct observable states; distinct_nontrivial = distinct observable states with >=1 name reported present; "
+                "transitions = operations judged against the dictionary model (each one is a history replayed on the real code)" %
+                (len(OPS), nops["add"], nops["addf"], [NAMES[n].decode() for n in DISK_NAMES], nops["del"], nops["has"],
+                 nops["hasf"], nops["read"], [n.decode() for n in NAMES], depth, NN, len(MUTATORS), nd_depth))
+    ctx.assumptions = ["aliasing between different entities (buffer name / disk file name) is learned from the implementation "
+                       "(depth-1 histories) and only required to be consistent", "reads of absent names are unconstrained (counted)",
+                       "a bare name passed to delete / open denotes the file that contains-buffer reports for it, or the file "
+                       "that contains-file reports for it if that file was added from disk; when both are present either may be "
+                       "removed / read",
+                       "the fixture directory lives on a case-sensitive file system (verified when it is created)",
                        "a transition that violates the model is reported and not expanded further (no cascades)"]
 
 
@@ -380,20 +572,26 @@ def replay(ctx, path):
     """./check C39 --replay <file>: re-run one recorded history, printing every return value and observation."""
     rec = json.load(open(path))["replay"]
     lib = _setup()
-    ops = [tuple(o) for o in rec["ops"]]
-    v = Vfs(lib)
-    for op in ops:
-        ret = v.apply(op)
-        print("%-28s -> %r" % (op_str(op), ret))
-        print("    contains: %r" % {NAMES[i].decode(): v.has(NAMES[i]) for i in range(NN)})
-    v.close()
-    part = core.Part()
-    cls, irr = learn_classes(lib, part)
-    judge = Judge(cls, irr)
-    st = {}
-    for k in range(len(ops)):
-        ret, obs, obs2 = run_history(lib, tuple(ops[:k + 1]))
-        st, ok = judge.judge(part, tuple(ops[:k]), ops[k], ret, obs, obs2, st)
+    _G["root"] = make_fixture()
+    try:
+        part = core.Part()
+        cls, look, irr = learn_classes(lib, part)
+        if "ops" in rec and not rec.get("missing"):
+            ops = [tuple(o) for o in rec["ops"]]
+            v = Vfs(lib)
+            for op in ops:
+                ret = v.apply(op)
+                print("%-28s -> %r" % (op_str(op), ret))
+                print("    contains:     %r" % {NAMES[i].decode(): v.has(NAMES[i]) for i in range(NN)})
+                print("    containsFile: %r" % {NAMES[i].decode(): v.hasf(NAMES[i]) for i in range(NN)})
+            v.close()
+            judge = Judge(cls, look, irr)
+            st = {}
+            for k in range(len(ops)):
+                ret, obs, obs2 = run_history(lib, tuple(ops[:k + 1]))
+                st, ok = judge.judge(part, tuple(ops[:k]), ops[k], ret, obs, obs2, st)
+    finally:
+        shutil.rmtree(_G["root"].decode(), ignore_errors=True)
     for vv in part["violations"]:
         print("VIOLATION-REPLAY %s\n  %s" % (vv["key"], vv["what"]))
     return 1 if part["violations"] else 0
